@@ -30,20 +30,21 @@ var interpPkgs = []string{
 }
 
 type Spec struct {
-	ID        string               `json:"id"`
-	Property  string               `json:"property"`
-	Pkg       string               `json:"pkg"` // directory relative to /repo ("." for the root package)
-	Entry     string               `json:"entry"`
-	Cases     map[string][][]int64 `json:"cases"` // tier -> list of parameter tuples
-	Reach     []string             `json:"reach"`
-	MaxDepth  int                  `json:"max_depth"`
-	MaxSteps  int                  `json:"max_steps"`
-	IntMode   bool                 `json:"int_mode"`
-	Carves    []string             `json:"carves"`
-	Timeout   int                  `json:"solver_timeout_ms"`
-	MaxPaths  int                  `json:"max_paths"`
-	Note      string               `json:"note"`
-	Overrides map[string]string    `json:"overrides"`
+	ID            string               `json:"id"`
+	Property      string               `json:"property"`
+	Pkg           string               `json:"pkg"` // directory relative to /repo ("." for the root package)
+	Entry         string               `json:"entry"`
+	Cases         map[string][][]int64 `json:"cases"` // tier -> list of parameter tuples
+	Reach         []string             `json:"reach"`
+	MaxDepth      int                  `json:"max_depth"`
+	MaxSteps      int                  `json:"max_steps"`
+	IntMode       bool                 `json:"int_mode"`
+	Carves        []string             `json:"carves"`
+	Timeout       int                  `json:"solver_timeout_ms"`
+	MaxPaths      int                  `json:"max_paths"`
+	Note          string               `json:"note"`
+	Overrides     map[string]string    `json:"overrides"`
+	OpaqueIntText bool                 `json:"opaque_int_text"`
 }
 
 type CaseResult struct {
@@ -368,7 +369,9 @@ func cmdRun(argv []string) {
 			fatalf("solver: %v", err)
 		}
 		solvers = append(solvers, sv)
+		fmt.Fprintf(os.Stderr, "CASE %s %v ...\n", c.spec.ID, c.params)
 		cr := runCase(c.spec, c.params, sv, &res)
+		fmt.Fprintf(os.Stderr, "CASE %s %v done: %d paths %.1fs ends=%v\n", c.spec.ID, c.params, cr.Paths, cr.WallS, cr.Ends)
 		res.Cases = append(res.Cases, cr)
 		mergeStats(&total, &in.ex.stats)
 		sv.close()
@@ -441,6 +444,7 @@ func mergeStats(dst, src *Stats) {
 	dst.AssertSat += src.AssertSat
 	dst.AssertUnknown += src.AssertUnknown
 	dst.AssertFolded += src.AssertFolded
+	dst.FeasUnknown += src.FeasUnknown
 	for k, v := range src.Unsupported {
 		dst.Unsupported[k] += v
 	}
@@ -509,6 +513,7 @@ func runCase(spec Spec, params []int64, sv *Solver, res *ShardResult) CaseResult
 	}
 	in.ex = ex
 	in.intMode = spec.IntMode
+	opaqueIntText = spec.OpaqueIntText
 	overrides = map[string]*ssa.Function{}
 	for from, to := range spec.Overrides {
 		i := strings.LastIndex(to, ".")
